@@ -267,6 +267,21 @@ impl Property for C09 {
         };
         let built = build(mech, &refs, &marker, &mut rng, &dirs);
         sc.vfs = built.nodes;
+        // decoration: a short macro chain carrying a very large text (more than 1 MiB in one expansion step)
+        let mut heavy = false;
+        if mech == "macro" && !is_cycle && n <= 3 && rng.chance(1, 2) {
+            heavy = true;
+            let big = format!("{} {}", marker, "x ".repeat(560_000 + rng.usize_below(200_000)));
+            for node in sc.vfs.iter_mut() {
+                if let VNode::File { path, bytes: Bytes::Text(t) } = node {
+                    if path == "/w/top.sv" {
+                        *t = t.replacen(&format!(" {}\n", marker), &format!(" {}\n", big), 1);
+                    }
+                }
+            }
+            sc.knobs.step_budget = 40_000_000;
+            sc.family = "heavy".into();
+        }
         // decoration: k sibling (sequential, not nested) includes and expansions before the structure: the
         // depth counters must not accumulate over siblings
         if rng.chance(1, 4) {
@@ -323,7 +338,16 @@ impl Property for C09 {
             _ => 256,
         };
         let use_str = rng.chance(1, 4);
-        let mut c = Call::new(if use_str { Api::PreprocessStr } else { Api::Preprocess }, "top.sv");
+        // the one-step parse routes must report the same shapes (incomplete mode: the expanded text need not be SystemVerilog)
+        let api = if use_str {
+            Api::PreprocessStr
+        } else if heavy {
+            Api::Preprocess
+        } else {
+            *rng.pick(&[Api::Preprocess, Api::Preprocess, Api::Preprocess, Api::ParseSv, Api::ParseLib])
+        };
+        let mut c = Call::new(api, "top.sv");
+        c.allow_incomplete = true;
         c.include_paths = dirs.clone();
         c.strip_comments = rng.chance(1, 4);
         // where no file is involved the flag must not matter
@@ -350,7 +374,7 @@ impl Property for C09 {
         }
         ops.push(Op::Call(c));
         sc.threads = vec![ops];
-        let sib = if sc.family == "siblings" { "+siblings" } else { "" };
+        let sib = if heavy { "+heavy-payload" } else if sc.family == "siblings" { "+siblings" } else { "" };
         sc.family = format!("{}:{}{}{}{}", mech, if is_cycle { "cycle" } else { "chain" }, n, if prefix > 0 { format!("+after{}failing", prefix) } else { String::new() }, sib);
         sc.expect = json!({
             "mechanism": mech,
@@ -469,7 +493,7 @@ impl Property for C09 {
                 // expected: Include^k(ExceedRecursiveLimit), k = include levels entered
                 // include levels entered where the call stopped descending (not the maximum over the call:
                 // sibling includes that were entered and left do not wrap the error)
-                let entered = if call.api == Api::Preprocess {
+                let entered = if call.api.reads_file() {
                     o.last_file_depth.saturating_sub(1)
                 } else {
                     o.last_file_depth
